@@ -151,8 +151,22 @@ class KeyedList(Generic[ItemType, KeyType], MutableSequence, KeyedBase):  # pyli
         if isinstance(index_or_key, slice):
             raise RuntimeError("Cannot assign multiple values at a time.")
         if isinstance(index_or_key, int):
-            self.__delitem__(index_or_key)
-            self.insert(index_or_key, value)
+            index = index_or_key
+            if index < 0:
+                index += len(self._list)
+            if not 0 <= index < len(self._list):
+                raise IndexError("list assignment index out of range")
+            # Validate everything before mutating, so that failed assignments
+            # leave the container untouched.
+            item, key = self._validate_item(value)
+            old_key = self.key(self._list[index])
+            if key != old_key and key in self._dict:
+                raise ValueError(
+                    f"Item with key `{repr(key)}` already in `{type_label(self._type)}`."
+                )
+            self._list[index] = item
+            del self._dict[old_key]
+            self._dict[key] = item
             return
 
         index = self.index_for_key(index_or_key)
@@ -180,6 +194,24 @@ class KeyedList(Generic[ItemType, KeyType], MutableSequence, KeyedBase):  # pyli
             )
         self._list.insert(index, item)
         self._dict[key] = item
+
+    def extend(self, values):
+        # Validate all incoming items before adding any of them, so that a
+        # failed extension leaves the container untouched.
+        staged = {}
+        for value in list(values):
+            item, key = self._validate_item(value)
+            if key in self._dict or key in staged:
+                raise ValueError(
+                    f"Item with key `{repr(key)}` already in `{type_label(self._type)}`."
+                )
+            staged[key] = item
+        self._list.extend(staged.values())
+        self._dict.update(staged)
+
+    def reverse(self):
+        # Reversal cannot introduce duplicate keys, so we bypass `__setitem__`.
+        self._list.reverse()
 
     def __contains__(self, value):
         try:
